@@ -4,6 +4,8 @@ package main
 
 import (
 	"fmt"
+	"go/ast"
+	"go/constant"
 	"go/types"
 	"sort"
 	"strings"
@@ -89,6 +91,7 @@ func termsEqual(a, b *Term) bool {
 func runC02(w *World, r *Report) {
 	r.Rule("code", "constructors leave the specified type / subtype / experimenter codes", 35)
 	r.Rule("declen", "stored length fields equal the size of what the element contains, for every constructor and builder", 13)
+	r.Rule("oxmlen", "constructors and editors of match fields leave oxm_length equal to the payload bytes", 40)
 	r.Rule("wirelen", "the declared length each encoder puts on the wire equals the bytes the element occupies at the moment of encoding", 34)
 	r.Rule("size", "size function ≡ bytes produced ≡ extent written, for every nested element kind", 40)
 	r.Rule("align8", "action, instruction, match and bucket sizes are multiples of 8", 30)
@@ -253,6 +256,7 @@ func runC02(w *World, r *Report) {
 
 	// ---------------------------------------------------------------- declen
 	declenRule(w, r)
+	oxmLenRule(w, r)
 
 	// ---------------------------------------------------------------- size (nested element kinds) and align8
 	nested := map[string]*Kind{}
@@ -312,6 +316,7 @@ func runC02(w *World, r *Report) {
 		sort.Slice(ks, func(i, j int) bool { return ks[i].Name < ks[j].Name })
 		wirelenRule(w, r, ks)
 	}
+	builtRule(w, r, "size", func(k *Kind) bool { return nested[k.Name] != nil })
 	alignSet := map[string]*Kind{}
 	for _, set := range [][]*Kind{actionKinds, instrKinds} {
 		for _, k := range set {
@@ -979,4 +984,297 @@ func loadBearing(w *World, k *Kind, inv lenInvariant) string {
 		}
 	}
 	return ""
+}
+
+// ---------------------------------------------------------------- oxmlen
+
+// negNorm rewrites ite(!(c) ? a : b) as ite(c ? b : a) so that conditions compare syntactically, and
+// resolves an inner ite on a condition an enclosing arm has already decided.
+func negNorm(t *Term) *Term { return negNormUnder(t, nil) }
+
+func negNormUnder(t *Term, known map[string]bool) *Term {
+	return t.Map(func(a *Atom) *Term {
+		if a.Kind == "ite" && len(a.Sub) == 2 {
+			c := a.Cond
+			neg := false
+			for strings.HasPrefix(c, "!(") && strings.HasSuffix(c, ")") {
+				c = c[2 : len(c)-1]
+				neg = !neg
+			}
+			if v, ok := known[c]; ok {
+				if v != neg {
+					return negNormUnder(a.Sub[0], known)
+				}
+				return negNormUnder(a.Sub[1], known)
+			}
+			with := func(v bool) map[string]bool {
+				m := map[string]bool{c: v}
+				for k, x := range known {
+					m[k] = x
+				}
+				return m
+			}
+			s0, s1 := negNormUnder(a.Sub[0], with(!neg)), negNormUnder(a.Sub[1], with(neg))
+			if neg {
+				s0, s1 = s1, s0
+			}
+			if s0.Equal(s1) {
+				return s0
+			}
+			return Ite(c, s0, s1)
+		}
+		return nil
+	})
+}
+
+func negNormOld(t *Term) *Term {
+	return t.Map(func(a *Atom) *Term {
+		if a.Kind != "ite" || len(a.Sub) != 2 {
+			return nil
+		}
+		c := a.Cond
+		neg := false
+		for strings.HasPrefix(c, "!(") && strings.HasSuffix(c, ")") {
+			c = c[2 : len(c)-1]
+			neg = !neg
+		}
+		s0, s1 := negNorm(a.Sub[0]), negNorm(a.Sub[1])
+		if neg {
+			s0, s1 = s1, s0
+		}
+		if c == a.Cond && s0.Equal(a.Sub[0]) && s1.Equal(a.Sub[1]) {
+			return nil
+		}
+		return Ite(c, s0, s1)
+	})
+}
+
+// oxmLenRule: every function that builds or edits a match field leaves oxm_length equal to the bytes of the
+// payload that will follow the header: Len(value), plus Len(mask) when the mask flag is set (OpenFlow 1.3.5
+// §7.2.3.2). Decided on the constructor summaries: the fields the function leaves in the match-field object
+// it returns (or embeds), on every path.
+func oxmLenRule(w *World, r *Report) {
+	mfk := w.Kinds["openflow13.MatchField"]
+	if mfk == nil {
+		r.Fail(VViolation, "oxmlen", "openflow13.MatchField", "", "-", "the match-field kind no longer exists")
+		return
+	}
+	isMF := func(t types.Type) bool {
+		if p, ok := t.Underlying().(*types.Pointer); ok {
+			t = p.Elem()
+		}
+		k := w.KindOfType(t)
+		return k != nil && k.Name == mfk.Name
+	}
+	for _, key := range w.sortedFuncKeys() {
+		fi := w.Funcs[key]
+		if fi.Recv != nil || fi.Decl.Body == nil || fi.Decl.Type.Results == nil || !strings.HasPrefix(key, "openflow13.") {
+			continue
+		}
+		cs := w.CtorSummary(fi)
+		if cs == nil || cs.State == nil || cs.In == nil {
+			continue
+		}
+		// prefixes P with a stored mask flag
+		var prefixes []string
+		for p := range cs.Fields {
+			if strings.HasSuffix(p, ".HasMask") {
+				prefixes = append(prefixes, strings.TrimSuffix(p, ".HasMask"))
+			}
+		}
+		sort.Strings(prefixes)
+		for _, P := range prefixes {
+			// only match-field objects: the root of a function returning one, or a field of that type
+			if P == "$" {
+				rt := fi.Pkg.TypesInfo.TypeOf(fi.Decl.Type.Results.List[0].Type)
+				if rt == nil || !isMF(rt) {
+					continue
+				}
+			} else if !strings.HasSuffix(P, ".Field") {
+				continue
+			}
+			pos := w.Pos(fi.Decl.Pos())
+			inst := strings.TrimPrefix(P, "$")
+			if inst == "" {
+				inst = "result"
+			}
+			lenOf := func(v Val, what string) (*Term, string) {
+				switch x := v.(type) {
+				case nil:
+					// not assigned by this function: the part the existing field already has
+					return LenCall(P+"."+what, "util.Message"), ""
+				case NilV:
+					return Const(0), ""
+				case ObjV:
+					if k := w.KindOfType(x.Type); k != nil && k.Len != nil {
+						ls := w.LenSummary(k)
+						if ls != nil && ls.Term != nil {
+							t := w.ExpandLens(ls.Term.Reroot(x.Path), 0)
+							return cs.In.resolveLocal(cs.State, t), ""
+						}
+					}
+					return LenCall(x.Path, "util.Message"), ""
+				case MaybeV:
+					if k := w.KindOfType(x.V.Type); k != nil && k.Len != nil {
+						if ls := w.LenSummary(k); ls != nil && ls.Term != nil {
+							t := w.ExpandLens(ls.Term.Reroot(x.V.Path), 0)
+							return cs.In.resolveLocal(cs.State, t), ""
+						}
+					}
+					return LenCall(x.V.Path, "util.Message"), ""
+				}
+				return nil, what + " is " + v.valString() + ", not an object the rule can size"
+			}
+			L, okL := cs.Fields[P+".Length"].(IntV)
+			if !okL {
+				if _, assigned := cs.Fields[P+".Length"]; !assigned {
+					// a function that edits the mask flag of an existing field without touching its length
+					r.Fail(VViolation, "oxmlen", fi.Key, inst, pos, "the function changes the mask flag (or the mask) of an existing match field and leaves oxm_length as it was: the length covers value and mask, so it no longer matches the payload that is encoded")
+					continue
+				} else {
+					r.Fail(VUndecided, "oxmlen", fi.Key, inst, pos, "oxm_length is assigned a value the interpreter cannot follow")
+					continue
+				}
+			}
+			if _, hasValue := cs.Fields[P+".Value"]; !hasValue && P == "$" {
+				continue // a header factory: the payload is attached by its caller, which is checked
+			}
+			vT, why := lenOf(cs.Fields[P+".Value"], "Value")
+			if vT == nil {
+				r.Fail(VUndecided, "oxmlen", fi.Key, inst, pos, why)
+				continue
+			}
+			mT, why := lenOf(cs.Fields[P+".Mask"], "Mask")
+			if mT == nil {
+				r.Fail(VUndecided, "oxmlen", fi.Key, inst, pos, why)
+				continue
+			}
+			want := vT
+			switch h := cs.Fields[P+".HasMask"].(type) {
+			case BoolV:
+				switch h.Cond {
+				case "true":
+					want = want.Add(mT)
+				case "false":
+				default:
+					want = want.Add(Ite(h.Cond, mT, Const(0)))
+				}
+			default:
+				r.Fail(VUndecided, "oxmlen", fi.Key, inst, pos, "the mask flag is assigned a value the interpreter cannot follow")
+				continue
+			}
+			// a header taken from the registry by a constant name: its width is the registry's
+			if rw, ok := w.registryWidthFor(fi); ok {
+				sub := func(t *Term) *Term {
+					return t.Map(func(a *Atom) *Term {
+						if a.Kind == "val" && strings.HasPrefix(a.Path, "global:openflow13.oxxFieldHeaderMap") && strings.HasSuffix(a.Path, ".Length") {
+							return Const(rw)
+						}
+						return nil
+					})
+				}
+				L = IntV{sub(L.T)}
+				want = sub(want)
+			}
+			lc, _ := cs.canonTerm(stripWraps(L.T, map[string]bool{}))
+			wc, _ := cs.canonTerm(stripWraps(want, map[string]bool{}))
+			lc, wc = negNorm(w.ExpandLens(lc, 0)), negNorm(w.ExpandLens(wc, 0))
+			if termsEqual(lc, wc) {
+				r.OK("oxmlen", fi.Key, inst, pos, fmt.Sprintf("oxm_length = %v = payload bytes (value, plus mask when the flag is set)", pushCoef(lc)), true)
+			} else {
+				r.Fail(VViolation, "oxmlen", fi.Key, inst, pos, fmt.Sprintf("the function leaves oxm_length = %v, but the payload that follows the header has %v bytes (value, plus mask when the flag is set): the next field or action is read from the wrong place", pushCoef(lc), pushCoef(wc)))
+			}
+		}
+	}
+}
+
+// registryWidthFor resolves the registry width a constructor's header lookup yields: the lookup by a
+// constant name, or by a name formatted from a constant prefix and an index when every registered name with
+// that prefix has the same width (looked through one level of helper).
+func (w *World) registryWidthFor(fi *FuncInfo) (int64, bool) {
+	entries, _ := w.registryEntries()
+	if len(entries) == 0 {
+		return 0, false
+	}
+	byName := map[string]int64{}
+	for _, e := range entries {
+		if e.OK {
+			byName[e.Name] = e.Width
+		}
+	}
+	var find func(fi *FuncInfo, depth int) (int64, bool)
+	find = func(fi *FuncInfo, depth int) (int64, bool) {
+		info := fi.Pkg.TypesInfo
+		var res int64
+		found, bad := false, false
+		ast.Inspect(fi.Decl.Body, func(n ast.Node) bool {
+			c, ok := n.(*ast.CallExpr)
+			if !ok {
+				return true
+			}
+			fn := w.calleeOf(info, c)
+			if fn == nil {
+				return true
+			}
+			set := func(v int64) {
+				if found && res != v {
+					bad = true
+				}
+				res, found = v, true
+			}
+			switch {
+			case fn.Name() == "FindFieldHeaderByName" && len(c.Args) >= 1:
+				if tv, ok := info.Types[c.Args[0]]; ok && tv.Value != nil && tv.Value.Kind() == constant.String {
+					if wd, ok := byName[constant.StringVal(tv.Value)]; ok {
+						set(wd)
+					} else {
+						bad = true
+					}
+					return true
+				}
+				// name := fmt.Sprintf("PREFIX%d", idx)
+				if id, ok := unparen(c.Args[0]).(*ast.Ident); ok {
+					prefix := ""
+					ast.Inspect(fi.Decl.Body, func(m ast.Node) bool {
+						as, ok := m.(*ast.AssignStmt)
+						if !ok || len(as.Lhs) != 1 || len(as.Rhs) != 1 || identObj(info, as.Lhs[0]) != info.Uses[id] {
+							return true
+						}
+						if sc, ok := unparen(as.Rhs[0]).(*ast.CallExpr); ok && len(sc.Args) >= 1 {
+							if tv, ok := info.Types[sc.Args[0]]; ok && tv.Value != nil && tv.Value.Kind() == constant.String {
+								f := constant.StringVal(tv.Value)
+								if i := strings.Index(f, "%d"); i > 0 && i == len(f)-2 {
+									prefix = f[:i]
+								}
+							}
+						}
+						return true
+					})
+					if prefix != "" {
+						var wd int64 = -1
+						for name, x := range byName {
+							if strings.HasPrefix(name, prefix) && strings.Trim(name[len(prefix):], "0123456789") == "" {
+								if wd >= 0 && wd != x {
+									bad = true
+								}
+								wd = x
+							}
+						}
+						if wd >= 0 {
+							set(wd)
+							return true
+						}
+					}
+				}
+				bad = true
+			case depth < 1 && w.FuncOf(fn) != nil && strings.HasSuffix(fn.Name(), "Header") && strings.HasPrefix(fn.Name(), "new"):
+				if v, ok := find(w.FuncOf(fn), depth+1); ok {
+					set(v)
+				}
+			}
+			return true
+		})
+		return res, found && !bad
+	}
+	return find(fi, 0)
 }
